@@ -31,7 +31,7 @@ TRUSTED = ['A1 float == real; A2 object arrays == float arrays; dependency contr
            'C07 (Richardson), C13 (dea3), C08 (selection) are re-executed here, not assumed']
 ASSUMPTIONS = ['steps h0 * ratio**-k with h0 > 0 (generator contract, C10); g and the kernel polynomial of degree <= order+1']
 NOT_DECIDED = ['accuracy within a multiple of the error estimate on transcendental kernels and general analytic g']
-BOUNDED = ['array z0 of 2 elements; NaN masks on 4 elements (all 16)']
+BOUNDED = ['array z0 of 2 elements, and one 2x3 non-contiguous view with a different limit at every point; NaN masks on 4 elements (all 16)']
 QUANTIFIED = 'z0, the coefficients c_j / of g (complex), the base step h0: universally quantified; order, pole order, path, method enumerated'
 
 
@@ -97,22 +97,37 @@ def run_limit(path, method, ords):
         with fd_env(names=ALL, symkey_cache=False) as m:
             lm = m['lm']
             for order in ords:
-                for zkind in ('real', 'complex', 'array'):
+                for zkind in ('real', 'complex', 'array') + (('array2x3-transposed-view',) if order == ords[0] else ()):
                     CTX.reset()
                     tag = 'order=%d,z0-%s:' % (order, zkind)
                     D = order + 1
                     cs = [cplx('c%d' % j) for j in range(D + 1)]
+                    c0_per_element = None
                     if zkind == 'real':
                         z0 = real('z0')
                     elif zkind == 'complex':
                         z0 = cplx('z0')
-                    else:
+                    elif zkind == 'array':
                         z0 = SymArr([cplx('z0'), cplx('z1')])
+                    else:
+                        # several axes, not C-contiguous: every point has its own limit c0[idx]
+                        base = np.empty((3, 2), dtype=object)
+                        for idx in np.ndindex(3, 2):
+                            base[idx] = real('z%d%d' % idx[::-1])
+                        z0 = base.T.view(SymArr)                      # shape (2, 3)
+                        c0_per_element = np.empty((3, 2), dtype=object).T      # same memory layout as z0
+                        for idx in np.ndindex(2, 3):
+                            c0_per_element[idx] = real('c0_%d%d' % idx)
+                        c0_per_element = c0_per_element.view(SymArr)
+                        cs[0] = c0_per_element
                     calls = []
+                    layouts = []
 
                     def fun(w, *a, **k):
                         calls.append((w, a, k))
                         d = w - z0
+                        if c0_per_element is not None:
+                            layouts.append((asobj(w).flags['C_CONTIGUOUS'], asobj(d).flags['C_CONTIGUOUS']))
                         acc = cs[0] + 0 * d
                         pw = None
                         for j in range(1, D + 1):
@@ -147,6 +162,15 @@ def run_limit(path, method, ords):
                             want = lift(asobj(z0).ravel()[0]) + sign * hs[k]
                             pa, pb = parts(C.lift(lift(w))), parts(C.lift(lift(want)))
                             solve.prove(tag + 'evaluation%d-at-z0%+d*step' % (k, sign), z3.And(*[u == v for u, v in zip(pa, pb)]), H)
+                    if c0_per_element is not None:
+                        solve.fact(tag + 'harness:f-receives-and-returns-arrays-in-the-layout-of-z0(not C-contiguous)', bool(layouts) and not any(a_ or b_ for a_, b_ in layouts), note=str(layouts[:2]))
+                        if np.shape(val) == shape:
+                            for idx in np.ndindex(shape):
+                                pv, pc = parts(C.lift(lift(asobj(val)[idx]))), parts(C.lift(lift(c0_per_element[idx])))
+                                solve.prove(tag + 'value%s==c_0%s(the-limit-at-that-point)' % (idx, idx), z3.And(*[u == w for u, w in zip(pv, pc)]), H)
+                            for nm_, arr_ in (('error_estimate', inf.error_estimate), ('final_step', inf.final_step)):
+                                solve.fact(tag + '%s-shape==shape(z0)' % nm_, np.shape(arr_) == shape, note=str(np.shape(arr_)))
+                        continue
                     for e, v in enumerate(asobj(val).ravel()):
                         pv, pc = parts(C.lift(lift(v))), parts(cs[0])
                         solve.prove(tag + 'value[%d]==c_0' % e, z3.And(*[u == w for u, w in zip(pv, pc)]), H)
